@@ -90,6 +90,32 @@ impl SnmpOid<'_> {
     pub fn starts_with(&self, oid: &SnmpOid) -> bool {
         oid.0.starts_with(&self.0)
     }
+    // Compare oids in lexicographic order of their subidentifiers.
+    // The byte order of the BER form differs from it:
+    // 16383 is `ff 7f`, while 16384 is `81 80 00`.
+    pub fn cmp_subids(&self, oid: &SnmpOid) -> std::cmp::Ordering {
+        SubIdIterator(&self.0).cmp(SubIdIterator(&oid.0))
+    }
+}
+
+// Iterate over the subidentifiers of the BER-encoded oid.
+// The first octet is yielded as is.
+struct SubIdIterator<'a>(&'a [u8]);
+
+impl Iterator for SubIdIterator<'_> {
+    type Item = u64;
+
+    fn next(&mut self) -> Option<Self::Item> {
+        let mut v = 0u64;
+        for (n, c) in self.0.iter().enumerate() {
+            v = (v << 7) | ((*c & 0x7f) as u64);
+            if c & 0x80 == 0 {
+                self.0 = &self.0[n + 1..];
+                return Some(v);
+            }
+        }
+        None
+    }
 }
 
 struct OidSubelementIterator<'a>(core::str::Split<'a, &'a str>);
